@@ -112,7 +112,7 @@ Theorem number_route b s find : In s all_settings -> op_texts b = [] -> sg_ident
   exists s', resolve_sg find Tb_fast b = Ok (FromId s', sg_ops s) /\ sg_number s' = sg_number s.
 Proof.
   intros Hs Hops Hid. apply (id_route Tb_fast b _ s Hops Hid (str_Z_nonempty _)).
-  pose proof number_route_b as H. rewrite forallb_forall in H. exact (H s Hs).
+  pose proof number_route_b as H. rewrite forallb_forall in H. specialize (H s Hs). unfold number_route_ok in H. exact H.
 Qed.
 
 Theorem name_route b s find name : In s all_settings -> (name = sg_short s \/ name = sg_pdb s) -> name_unique name = true ->
@@ -122,8 +122,8 @@ Proof.
   intros Hs Hn Hu Hne Hops Hid. apply (id_route Tb_fast b name s Hops Hid Hne).
   pose proof name_route_b as H. rewrite forallb_forall in H. specialize (H s Hs). unfold name_route_ok in H.
   apply andb_true_iff in H as [H1 H2]. destruct Hn as [->| ->].
-  - rewrite Hu in H1. exact H1.
-  - rewrite Hu in H2. exact H2.
+  - rewrite Hu in H1. cbn [negb orb] in H1. exact H1.
+  - rewrite Hu in H2. cbn [negb orb] in H2. exact H2.
 Qed.
 
 (* ---------- the reader does not care which way the group was named ---------- *)
